@@ -44,7 +44,10 @@ class Contract:
         self.invariants = list(kw.pop("invariants", []))  # names of class invariants to assume on entry / prove on exit
         self.params: Optional[List[str]] = kw.pop("params", None)
         self.reveal = set(kw.pop("reveal", []))
-        self.allocates: bool = kw.pop("allocates", False)  # may the function allocate objects that outlive the call?  # opaque spec functions whose definition this proof may use
+        self.allocates: bool = kw.pop("allocates", False)
+        self.axioms = _labelled(kw.pop("axioms", []), "axiom")  # definitional facts about ufuns, instantiated for this call
+        self.dyn_classes = list(kw.pop("dyn_classes", []))  # classes whose __call__ contract serves dynamic calls
+        self.dyn_result = kw.pop("dyn_result", None)  # assumed return annotation of unknown callables  # may the function allocate objects that outlive the call?  # opaque spec functions whose definition this proof may use
         if kw:
             raise TypeError(f"unknown contract fields {list(kw)} for {key}")
 
@@ -81,6 +84,11 @@ class Registry:
         self.trusted_effect_free: List[str] = []
         self.invariants: Dict[str, tuple] = {}
         self.lemmas: list = []
+        self.ufuns: Dict[str, tuple] = {}
+
+    def ufun(self, name, nargs, ret="bool"):
+        """Uninterpreted spec function over values (heap dependence must be made explicit, e.g. through epoch())."""
+        self.ufuns[name] = (nargs, ret)
 
     def contract(self, key, **kw) -> Contract:
         c = Contract(key, **kw)
@@ -109,6 +117,7 @@ contract = REG.contract
 spec = REG.spec
 inline = REG.inline_fn
 invariant = REG.invariant
+ufun = REG.ufun
 
 
 def attr_types(d):
